@@ -195,7 +195,8 @@ def short_form_tables(a):
     # the two handlers that build `{long form: value}` for scalar / sequence payloads
     for fname, payload_variant in (("handle_single_value_func_ref", "String"), ("handle_sequence_value_func_ref", "Null")):
         ex = a.exec(r"(?:(?:rules::libyaml::)?loader::)?" + fname,
-                    {"contains": lambda ex, av: ("bool", ex.fresh("Bool", "known")), "short_form_to_long": lambda ex, av: ("tuple", [("str", "long-of"), av[0]]),
+                    {"contains": lambda ex, av: ("bool", ex.fresh("Bool", "known")), "is_short_form": lambda ex, av: ("bool", ex.fresh("Bool", "known")),
+                     "short_form_to_long": lambda ex, av: ("tuple", [("str", "long-of"), av[0]]),
                      "insert": mirexec.m_option, "new": lambda ex, av: ex.opq(), "to_string": mirexec.m_identity, "deref": mirexec.m_identity},
                     log=("insert",), unroll=1, max_paths=200)
         a.fns.append("rules::libyaml::loader::" + fname)
@@ -205,9 +206,11 @@ def short_form_tables(a):
         bad = []
         for p in ex.paths:
             r = p.ret
-            cons = calls(p, "contains")
+            # "known tag": one table lookup of THIS tag, or the helper that looks it up in both tables (decided separately:
+            # loader/short-form/loaders-agree)
+            cons = calls(p, "contains") + calls(p, "is_short_form")
             ins = calls(p, "insert")
-            if p.outcome != "return" or r is None or r[0] != "enum" or len(cons) != 1 or not same(cons[0][2][1], tag):
+            if p.outcome != "return" or r is None or r[0] != "enum" or len(cons) != 1 or not same(cons[0][2][-1], tag):
                 bad.append(pc_term(p.pc))
                 continue
             known = cons[0][3][1]
@@ -427,4 +430,110 @@ def replay_big_numbers(a):
         shutil.rmtree(d, ignore_errors=True)
 
 
-SITES = {"C11": [scalar_typing, type_ref, short_form_tables, serde_number_typing], "C16": [serde_number_typing]}
+def short_form_loader_agreement(a):
+    """the loader of `validate` (libyaml events: scalar / sequence payloads are handled by two functions) and the serde loader
+    of `test` / run_checks (one function) must take the SAME decision on whether `!Tag payload` becomes {long form: payload}"""
+    def m_deref(ex, av):
+        c = ex.cur_callee or ""
+        m = re.search(r"(SINGLE_VALUE_FUNC_REF|SEQUENCE_VALUE_FUNC_REF|SHORT_FORM_TO_LONG_MAPPING)", c)
+        return ("str", "$" + m.group(1)) if m else (av[0] if av else ex.opq())
+
+    def m_contains(ex, av):
+        if av and av[0] == ("str", "$SINGLE_VALUE_FUNC_REF"):
+            return ("bool", "|in_single|")
+        if av and av[0] == ("str", "$SEQUENCE_VALUE_FUNC_REF"):
+            return ("bool", "|in_seq|")
+        return ex.havoc("bool")
+    def m_is_short_form(ex, av):
+        # the helper's own wrap condition is read from its MIR once (paths that return true)
+        if "cond" not in helper:
+            hx = a.exec(r"(?:(?:rules::libyaml::)?loader::)?is_short_form", {"deref": m_deref, "contains": m_contains}, unroll=1, max_paths=50)
+            alts = []
+            for hp in hx.paths:
+                atoms = [c for c in hp.pc if "|in_single|" in c or "|in_seq|" in c]
+                if hp.ret == ("bool", "true"):
+                    alts.append("(and true " + " ".join(atoms) + ")")
+                elif hp.ret is not None and hp.ret[0] == "bool" and hp.ret[1] not in ("true", "false"):
+                    alts.append("(and " + hp.ret[1] + " " + " ".join(atoms) + ")")
+            helper["cond"] = "(or false " + " ".join(alts) + ")"
+        return ("bool", helper["cond"])
+    helper = {}
+    models = {"deref": m_deref, "contains": m_contains, "is_short_form": m_is_short_form, "short_form_to_long": lambda ex, av: ex.opq(), "insert": mirexec.m_option,
+              "new": lambda ex, av: ex.opq(), "to_string": mirexec.m_identity, "try_from": m_result_opq, "clone": mirexec.m_identity}
+    W = {}
+    for label, rx, first in (("validate loader, scalar payload", r"(?:(?:rules::libyaml::)?loader::)?handle_single_value_func_ref", ""),
+                             ("validate loader, sequence payload", r"(?:(?:rules::libyaml::)?loader::)?handle_sequence_value_func_ref", ""),
+                             ("serde loader (test / run_checks)", r"(?:(?:rules::)?values::)?handle_tagged_value", "")):
+        try:
+            ex = a.exec(rx, models, log=("insert",), unroll=1, max_paths=500)
+        except Untranslatable as e:
+            a.ob.items.append({"obligation": "loader/short-form/loaders-agree", "describe": f"not translatable: {e}", "verdicts": {},
+                               "status": "inconclusive", "model": None})
+            return
+        a.fns.append(rx.split("?")[-1])
+        alts = []
+        for p in ex.paths:
+            if not calls(p, "insert"):
+                continue
+            atoms = [c for c in p.pc if "|in_single|" in c or "|in_seq|" in c]
+            alts.append("(and true " + " ".join(atoms) + ")")
+        W[label] = "(or false " + " ".join(alts) + ")"
+    labels = list(W)
+    term = f"(or (xor {W[labels[0]]} {W[labels[2]]}) (xor {W[labels[1]]} {W[labels[2]]}))"
+    a.ob.check("loader/short-form/loaders-agree", ["(declare-const |in_single| Bool)", "(declare-const |in_seq| Bool)"], [], term,
+               "for a tag with arbitrary membership in the two short-form tables (in_single, in_seq): the validate loader wraps a scalar payload, "
+               "and wraps a sequence payload, under exactly the condition under which the serde loader wraps any payload - so `!Tag v` loads as "
+               "the same value whichever command reads it. wrap conditions read from MIR: " + "; ".join(f"{k}: {v}" for k, v in W.items())[:600])
+    item = a.ob.items[-1]
+    if item["status"] == "refuted":
+        item["replay"] = replay_short_form_loaders(a)
+        item["reproduced"] = item["replay"].get("reproduced", False)
+        a.candidates.append(item)
+
+
+def replay_short_form_loaders(a):
+    """every short-form tag with a scalar and with a sequence payload: `test` (serde loader) must evaluate kind tests on it
+    exactly as `validate` (own loader) does"""
+    import json, os, shutil, subprocess, tempfile
+    exe = a.cli()
+    if not exe:
+        return {"reproduced": False, "note": "native build failed"}
+    tags = ["Ref", "GetAtt", "Base64", "Sub", "GetAZs", "ImportValue", "Condition", "Select", "Split", "Join", "FindInMap", "And", "Equals", "If", "Not", "Or"]
+    rules = "rule is_map {\n  v is_struct\n}\nrule is_str {\n  v is_string\n}\nrule is_lst {\n  v is_list\n}\n"
+    d = tempfile.mkdtemp(prefix="cfnverif_replay_")
+    env = dict(os.environ)
+    env["RUST_BACKTRACE"] = "0"
+    out, tried = [], []
+    try:
+        open(os.path.join(d, "r.guard"), "w").write(rules)
+        for t in tags:
+            for kind, payload in (("scalar", "s"), ("sequence", "[a, b]")):
+                doc = f"v: !{t} {payload}\n"
+                open(os.path.join(d, "d.yaml"), "w").write(doc)
+                pr = subprocess.run([exe, "validate", "-r", "r.guard", "-d", "d.yaml", "--structured", "-o", "json", "--show-summary", "none"],
+                                    cwd=d, capture_output=True, text=True, env=env, timeout=60)
+                try:
+                    rep = json.loads(pr.stdout)[0]
+                except Exception:
+                    tried.append({"tag": t, "payload": kind, "problem": "validate gave no report"})
+                    continue
+                val = {n: ("PASS" if n in rep.get("compliant", []) else "FAIL") for n in ("is_map", "is_str", "is_lst")}
+                open(os.path.join(d, "t.yaml"), "w").write("- name: c\n  input:\n    " + doc + "  expectations:\n    rules:\n" +
+                                                           "".join(f"      {n}: {s}\n" for n, s in val.items()))
+                pt = subprocess.run([exe, "test", "-r", "r.guard", "-t", "t.yaml", "-o", "json"], cwd=d, capture_output=True, text=True, env=env, timeout=60)
+                try:
+                    failed = json.loads(pt.stdout)["test_cases"][0].get("failed_rules", [])
+                except Exception:
+                    tried.append({"tag": t, "payload": kind, "problem": "test gave no report"})
+                    continue
+                ok = pt.returncode == 0 and not failed
+                tried.append({"tag": t, "payload": kind, "ok": ok})
+                if not ok:
+                    out.append({"document": doc, "validate_kind_tests": val, "test_disagrees_on": [f["name"] for f in failed]})
+        return {"reproduced": bool(out), "mismatches": out[:4], "n_mismatches": len(out), "tried": len(tried),
+                "note": "; ".join(f"{t['tag']}/{t['payload']}: {t['problem']}" for t in tried if "problem" in t)[:300] or None}
+    finally:
+        shutil.rmtree(d, ignore_errors=True)
+
+
+SITES = {"C11": [scalar_typing, type_ref, short_form_tables, serde_number_typing, short_form_loader_agreement], "C16": [serde_number_typing, short_form_loader_agreement]}
